@@ -23,6 +23,10 @@ class Check(PropertyCheck):
     ASSUMPTIONS = ["instances are valid (non-empty duplicate-free machine lists, durations >= 0)"]
 
     def generate(self, rng, n, tier):
+        if tier == "thorough":
+            # exhaustive small scope first (every instance <= 2 jobs x 2 operations, durations 0..2, every interleaving)
+            self.extra_coverage = {"exhaustive_small_scope": True}
+            yield from slices.exhaustive_small("snap")
         for _ in range(n):
             # every other scenario continues with a second episode after reset(): the clauses hold there as well
             yield slices.dispatch_scenario(rng, with_invalid=True, max_jobs=4 if tier == "quick" else 5,
